@@ -1,12 +1,18 @@
 package props
 
 import (
+	"bytes"
 	"encoding/json"
 	"fmt"
+	"io"
+	"net"
+	"net/http"
 	"os"
+	"os/exec"
 	"path/filepath"
 	"runtime"
 	"strings"
+	"time"
 
 	"github.com/go-openapi/loads"
 
@@ -109,17 +115,35 @@ func c10Documents(tier string) []c10Doc {
 		at(d, "definitions", "Pet")["additionalProperties"] = true
 		out = append(out, c10Doc{Name: "explicit-defaults", Doc: d})
 	}
+	// operations without operationId (the generator derives names; the documents must not gain them)
+	{
+		strip := func(d J) J {
+			d = cloneJ(d)
+			for _, pi := range at(d, "paths") {
+				for _, op := range pi.(J) {
+					if o, ok := op.(J); ok {
+						delete(o, "operationId")
+					}
+				}
+			}
+			return d
+		}
+		d := baseDoc()
+		addParam(d, "/b/{id}", "get", J{"in": "path", "name": "id", "type": "string", "required": true})
+		at(d, "paths", "/a")["post"] = J{"tags": A{"things"}, "parameters": A{J{"in": "body", "name": "body", "schema": J{"type": "object", "properties": J{"x": J{"type": "string"}}}}}, "responses": J{"201": J{"description": "c", "schema": J{"type": "array", "items": J{"type": "object", "properties": J{"y": J{"type": "integer"}}}}}}}
+		out = append(out, c10Doc{Name: "no-operationId", Doc: strip(d)})
+	}
 	for i := range out {
 		out[i].Mode = "minimal"
 	}
 	base := append([]c10Doc{}, out...)
 	for _, d := range base {
-		if strings.HasPrefix(d.Name, "fam:") || strings.HasPrefix(d.Name, "string") {
+		if strings.HasPrefix(d.Name, "fam:") || strings.HasPrefix(d.Name, "string") || d.Name == "no-operationId" {
 			out = append(out, c10Doc{Name: d.Name + " [yaml]", Doc: d.Doc, YAML: true, Mode: "minimal"})
 		}
 	}
 	for _, d := range base {
-		if tier == "thorough" || strings.HasPrefix(d.Name, "synth:") || strings.Contains(d.Name, "defs=") || strings.Contains(d.Name, "body=") || strings.Contains(d.Name, "response=") {
+		if tier == "thorough" || strings.HasPrefix(d.Name, "synth:") || d.Name == "no-operationId" || strings.Contains(d.Name, "defs=") || strings.Contains(d.Name, "body=") || strings.Contains(d.Name, "response=") {
 			out = append(out, c10Doc{Name: d.Name + " [full]", Doc: d.Doc, Mode: "full"}, c10Doc{Name: d.Name + " [expand]", Doc: d.Doc, Mode: "expand"})
 		}
 	}
@@ -213,6 +237,9 @@ func RunC10(tier, replay string) int {
 		specs[i] = ServerSpec{Doc: d.Doc, YAML: d.YAML, Args: args}
 	}
 	r.Extra["documents"] = len(docs)
+	if replay == "" {
+		c10Mains(r, s)
+	}
 	cases := GenServersSpec(s, specs)
 	BuildServers(s, cases)
 	parallel(len(cases), runtime.NumCPU(), func(w, i int) {
@@ -479,4 +506,112 @@ func pathClass(what string) string {
 		parts = append(parts[:2], parts[len(parts)-2:]...)
 	}
 	return strings.Join(parts, "/")
+}
+
+
+// c10Mains: the generated server PROGRAM (cmd/<name>-server/main.go) for every flag strategy is built,
+// started on a loopback port and asked for /swagger.json: it must serve the input document. Two documents:
+// one whose flattened form equals the original up to refs, one that flattening rewrites (inline schemas).
+func c10Mains(r *evid.Run, s *Scratch) {
+	plain := baseDoc()
+	inline := baseDoc()
+	at(inline, "paths", "/a")["post"] = J{"operationId": "postA", "parameters": A{J{"in": "body", "name": "body", "schema": J{"type": "object", "properties": J{"x": J{"type": "string"}, "n": J{"type": "object", "properties": J{"d": J{"type": "number"}}}}}}},
+		"responses": J{"201": J{"description": "c", "schema": J{"type": "array", "items": J{"type": "object", "properties": J{"y": J{"type": "integer"}}}}}}}
+	type job struct {
+		name     string
+		doc      J
+		strategy string
+	}
+	var jobs []job
+	for _, st := range []string{"go-flags", "pflag", "flag"} {
+		jobs = append(jobs, job{"base", plain, st}, job{"inline-schemas", inline, st})
+	}
+	parallel(len(jobs), 6, func(_, i int) {
+		j := jobs[i]
+		key := "main|" + j.name + "|" + j.strategy
+		sample := map[string]interface{}{"doc": j.name, "flag_strategy": j.strategy, "served_by": "generated main program"}
+		dir := filepath.Join(s.Dir, fmt.Sprintf("main%02d", i))
+		must(os.MkdirAll(dir, 0o755))
+		sp := filepath.Join(dir, "swagger.json")
+		must(os.WriteFile(sp, prettyJSON(j.doc), 0o644))
+		if res := s.Generate("server", sp, dir, "--name", "verifapp", "--flag-strategy", j.strategy); res.Err != nil {
+			r.Count("generation_errors(C01)", 1)
+			r.Note("generation error main %s/%s: %s", j.name, j.strategy, lastLines(res.Out, 3))
+			r.CaseKeyed(key, sample, false, "generation-error")
+			return
+		}
+		bin := filepath.Join(dir, "server.bin")
+		if b := s.Build(bin, "./"+filepath.Base(dir)+"/cmd/verifapp-server"); b.Err != nil {
+			r.Count("build_failures(C01)", 1)
+			r.Note("build failure main %s/%s: %s", j.name, j.strategy, lastLines(b.Out, 3))
+			r.CaseKeyed(key, sample, false, "build-failure")
+			return
+		}
+		served, err := fetchFromProgram(bin, "/swagger.json")
+		if err != nil {
+			r.HarnessError("generated server program %s/%s: %v", j.name, j.strategy, err)
+			return
+		}
+		var got interface{}
+		_ = json.Unmarshal(served, &got)
+		out := "serves-input"
+		if !jsonEqual(normalizeJSON(j.doc), got) {
+			out = "VIOLATION"
+			fd := firstDiff(normalizeJSON(j.doc), got, "")
+			r.Violate(evid.Violation{Signature: fmt.Sprintf("generated main serves another document | %s | %s", j.name, j.strategy), What: fmt.Sprintf("[%s, --flag-strategy %s] the generated server program answers GET /swagger.json with a document that differs from the input at %s", j.name, j.strategy, fd),
+				Case: c10Doc{Name: "main:" + j.name + ":" + j.strategy, Doc: j.doc, Mode: "minimal"}})
+		}
+		r.CaseKeyed(key, sample, true, out)
+	})
+}
+
+// fetchFromProgram starts a generated server binary on a free loopback port and GETs one route.
+func fetchFromProgram(bin, route string) ([]byte, error) {
+	var lastErr error
+	for attempt := 0; attempt < 3; attempt++ {
+		l, err := net.Listen("tcp", "127.0.0.1:0")
+		if err != nil {
+			return nil, err
+		}
+		port := l.Addr().(*net.TCPAddr).Port
+		_ = l.Close()
+		cmd := exec.Command(bin, "--host=127.0.0.1", fmt.Sprintf("--port=%d", port))
+		var logs bytes.Buffer
+		cmd.Stdout, cmd.Stderr = &logs, &logs
+		if err := cmd.Start(); err != nil {
+			return nil, err
+		}
+		done := make(chan struct{})
+		go func() { _ = cmd.Wait(); close(done) }()
+		url := fmt.Sprintf("http://127.0.0.1:%d%s", port, route)
+		deadline := time.Now().Add(60 * time.Second)
+		var body []byte
+		for time.Now().Before(deadline) {
+			resp, err := http.Get(url)
+			if err == nil {
+				body, err = io.ReadAll(resp.Body)
+				_ = resp.Body.Close()
+				if err == nil && resp.StatusCode == 200 {
+					break
+				}
+				lastErr = fmt.Errorf("GET %s: status %d: %s", url, resp.StatusCode, trunc(string(body), 200))
+				body = nil
+				break
+			}
+			lastErr = err
+			select {
+			case <-done:
+				lastErr = fmt.Errorf("server exited: %s", trunc(logs.String(), 400))
+				deadline = time.Now()
+			default:
+				time.Sleep(150 * time.Millisecond)
+			}
+		}
+		_ = cmd.Process.Kill()
+		<-done
+		if body != nil {
+			return body, nil
+		}
+	}
+	return nil, lastErr
 }
